@@ -639,8 +639,9 @@ type hCfg struct {
 	LogoutPath, LogoutURI  string
 	Store                  string
 	Abs, Idle              time.Duration
-	Debug                  bool   // every logging scope of the service at debug level (LoggingRoundTripper around the IdP client, ...)
-	RealKeys               string // "" scripted key source | "static" | "fetcher": the real DefaultJWKSProvider on the configured JWKS
+	Disc                   *discCfg // endpoints come from a discovery document (configuration_uri) instead of the configuration
+	Debug                  bool     // every logging scope of the service at debug level (LoggingRoundTripper around the IdP client, ...)
+	RealKeys               string   // "" scripted key source | "static" | "fetcher": the real DefaultJWKSProvider on the configured JWKS
 }
 
 func (c hCfg) proto(idpBase string) *oidcv1.OIDCConfig {
@@ -660,6 +661,11 @@ func (c hCfg) proto(idpBase string) *oidcv1.OIDCConfig {
 	}
 	if c.Logout {
 		o.Logout = &oidcv1.LogoutConfig{Path: c.LogoutPath, RedirectUri: c.LogoutURI}
+	}
+	if c.Disc != nil {
+		// the statically configured endpoints are decoys: discovery must replace them
+		o.ConfigurationUri = idpBase + c.Disc.Path
+		o.AuthorizationUri, o.TokenUri = "https://static.invalid/authorize", "https://static.invalid/token"
 	}
 	switch c.RealKeys {
 	case "static":
@@ -684,8 +690,34 @@ func (c hCfg) wire(idpBase string) string {
 	if c.Logout {
 		lo = hx(c.LogoutPath) + ":" + hx(c.LogoutURI)
 	}
+	auth, tok := c.AuthURI, idpBase+c.TokenPath
+	if c.Disc != nil {
+		auth, tok = "https://static.invalid/authorize", "https://static.invalid/token"
+	}
 	return strings.Join([]string{"cfg", hx(c.ClientID), hx(c.Secret), hx(c.CallbackURI), hx(u.Scheme), hx(u.Hostname()), hx(u.Port()), hx(u.Path),
-		hx(c.AuthURI), hx(idpBase + c.TokenPath), listOr(sc, ","), hx(c.Prefix), hx(c.IDHeader), hx(c.IDPreamble), acc, lo}, " ")
+		hx(auth), hx(tok), listOr(sc, ","), hx(c.Prefix), hx(c.IDHeader), hx(c.IDPreamble), acc, lo}, " ")
+}
+
+// discCfg: what the discovery document of the world's provider says
+type discCfg struct {
+	Path       string   `json:"path"` // unique per world: the cache is process-wide
+	Auth       string   `json:"authorization_endpoint"`
+	EndSession string   `json:"end_session_endpoint"`
+	Methods    []string `json:"code_challenge_methods_supported,omitempty"`
+}
+
+// effective: the configuration after discovery (authorization endpoint from the document; the logout redirect from the
+// document when none is configured)
+func (c hCfg) effective() hCfg {
+	if c.Disc == nil {
+		return c
+	}
+	e := c
+	e.AuthURI = c.Disc.Auth
+	if e.Logout && e.LogoutURI == "" {
+		e.LogoutURI = c.Disc.EndSession
+	}
+	return e
 }
 
 func (c hCfg) cookieName() string {
@@ -735,7 +767,8 @@ type hObs struct {
 }
 
 type hWorld struct {
-	cfg    hCfg
+	raw    hCfg // the configuration as written (what the service is given)
+	cfg    hCfg // the configuration in force (after endpoint discovery): what the monitors judge by
 	oc     *oidcv1.OIDCConfig
 	rig    *storeRig
 	spy    *spyStore
@@ -752,12 +785,13 @@ func newHWorld(c hCfg) *hWorld {
 	setLogDebug(c.Debug)
 	ctx, cancel := context.WithCancel(context.Background())
 	rec := &recorder{}
-	w := &hWorld{cfg: c, idp: newFakeIDP(), jwks: &scriptedJWKS{ok: true, rec: rec}, pool: internal.NewTLSConfigPool(ctx), cancel: cancel, known: map[string]bool{}, rec: rec}
+	w := &hWorld{raw: c, cfg: c.effective(), idp: newFakeIDP(), jwks: &scriptedJWKS{ok: true, rec: rec}, pool: internal.NewTLSConfigPool(ctx), cancel: cancel, known: map[string]bool{}, rec: rec}
 	w.idp.rec = rec
 	w.rig = newStoreRig(c.Store, c.Abs, c.Idle, 1_700_000_000_000_000_000)
 	w.ledger = &tokLedger{}
 	w.spy = &spyStore{real: w.rig.inst[0], rec: rec, ledger: w.ledger}
 	w.oc = c.proto(w.idp.srv.URL)
+	w.idp.setJWKS(keys().doc)
 	if c.RealKeys != "" {
 		p := oidc.NewJWKSProvider(&configv1.Config{Chains: []*configv1.FilterChain{{Name: "c", Filters: []*configv1.Filter{{Type: &configv1.Filter_Oidc{Oidc: w.oc}}}}}}, w.pool)
 		go func() { _ = p.ServeContext(ctx) }()
@@ -777,7 +811,12 @@ func (w *hWorld) Close() {
 // emitPrelude writes the records that set the model world up.
 func (w *hWorld) emitPrelude(r *Run) {
 	r.Emit(w.rig.wireNew(), "ok")
-	r.Emit(w.cfg.wire(w.idp.srv.URL), "ok")
+	r.Emit(w.raw.wire(w.idp.srv.URL), "ok")
+	if d := w.raw.Disc; d != nil {
+		// the first handler construction resolves the endpoints (and fills the process-wide cache); the model adopts them
+		w.resolve(r, w.oc, discAnswer{Kind: "doc", Methods: d.Methods,
+			Doc: discDoc{Auth: d.Auth, Token: w.idp.srv.URL + w.raw.TokenPath, Jwks: w.idp.srv.URL + "/jwks", EndSession: d.EndSession}}, true)
+	}
 }
 
 // announce makes sure the model knows the oracle rows for the strings in play.
